@@ -363,9 +363,39 @@ def gen_cross_case(rng):
             'peek': rng.random() < 0.3}
 
 
+def gen_refused_case(rng, fmt=None, ep=None):
+    """a refused import (a node that is NOT the first one lacks NodeID; the nodes before it carry properties the next
+    model does not have) under a fresh graph id, followed by the import of a serialized graph under another id"""
+    src = rng.choice(['g1', 'G-1', 'slice one'])
+    g = gen_raw_graph(rng, src, GOOD)
+    k = rng.choice([1, 1, 2, 3])
+    bad_nodes = []
+    for i in range(k):
+        bad_nodes.append([i + 1, {'NodeID': 'left-%d' % i, 'Class': rng.choice(CLASSES_N), 'Vendor': 'stray ' + gen_string(rng),
+                                  'Stray%d' % i: rng.choice([1, True, 'x'])}])
+    bad_nodes.append([k + 1, dict({'Class': 'NetworkNode'}, **({'NodeID': rng.choice(['', 0])} if rng.random() < 0.4 else {}))])
+    if rng.random() < 0.5:
+        bad_nodes.append([k + 2, {'NodeID': 'after', 'Class': 'Component'}])
+    bad_edges = [[1, k + 1, {'Class': 'has'}]] if rng.random() < 0.5 else []
+    pre = [[rng.random() < 0.5, src, g], [False, 'refused-id', {'nodes': bad_nodes, 'edges': bad_edges}]]
+    if rng.random() < 0.25:
+        pre.insert(0, [True, 'g9', gen_raw_graph(rng, 'g9', GOOD, key0=100)])
+    new = rng.choice(['new-graph', 'new-graph', 'copy <2>', src])
+    watch = []
+    for w in [src, new, 'refused-id', 'g9']:
+        if w not in watch:
+            watch.append(w)
+    return {'kind': 'raw', 'profile': 'refused', 'pre': pre, 'src': src, 'raw': {'nodes': [], 'edges': []},
+            'fmt': rng.randrange(2) if fmt is None else fmt, 'ep': rng.randrange(4) if ep is None else ep, 'gid': new,
+            'watch': watch, 'topo': None, 'peek': rng.random() < 0.3}
+
+
 def gen_raw_case(rng):
-    if rng.random() < 0.12:
+    r = rng.random()
+    if r < 0.12:
         return gen_cross_case(rng)
+    if r < 0.18:
+        return gen_refused_case(rng)
     pname, prof = pick_profile(rng)
     gid = rng.choice(['g1', 'G-1', 'a0b1', 'slice one', 'id&<>"', 'über', 'x'])
     pre = []
@@ -582,7 +612,7 @@ class Run:
         PG = self.graph_cls()
         fmt = [GraphFormat.GRAPHML, GraphFormat.JSON_NODELINK][case['fmt']]
         out = {'loads': [], 'ser': None, 'res': None, 'graphs': [], 'reser': None, 'validate': None, 'topo': None,
-               'ids': None}
+               'ids': None, 'after_loads': {}}
         tmpfiles = []
         try:
             for direct, gid, g in case['pre']:
@@ -591,6 +621,14 @@ class Run:
                     out['loads'].append(['ok', gid])
                 except Exception as e:
                     out['loads'].append([exc_class(e)])
+            # the store right after the loads: every loaded / refused id, through the public graph_exists and extract
+            out['after_loads'] = {}
+            for gid in dict.fromkeys(g[1] for g in case['pre']):
+                try:
+                    out['after_loads'][gid] = {'exists': bool(PG(graph_id=gid, importer=imp).graph_exists()),
+                                               'content': content_of(imp.storage.extract_graph(gid))}
+                except Exception as e:
+                    out['after_loads'][gid] = {'error': type(e).__name__}
             topo = None
             text = None
             try:
@@ -741,6 +779,8 @@ def source_graph(case, obs, flavour='shared'):
     if flavour == 'disjoint':
         store = {}
         for (direct, gid, g), l in zip(case['pre'], obs['loads']):
+            if l[0] == 'import' and not direct and gid not in store:
+                continue                   # a refused load under an id not in use: nothing may change
             if l[0] != 'ok' or gid in store:
                 store = None               # a failed load; a second load of an id is skipped or replaces
                 break
@@ -758,8 +798,10 @@ def source_graph(case, obs, flavour='shared'):
         nodes, edges = [], []
         store = {}
         for i, ((direct, gid, g), l) in enumerate(zip(case['pre'], obs['loads'])):
+            if l[0] == 'import' and not direct and not any(d.get('GraphID') == gid for _, d in nodes):
+                continue                   # a refused load under an id not in use: nothing may change
             if l[0] != 'ok':
-                store = None               # a failed load may have deleted things: left to the model
+                store = None               # a refused load onto an id in use has deleted that graph: left to the model
                 break
             dead = {u for u, d in nodes if isinstance(d.get('GraphID'), str) and d['GraphID'] == gid}
             nodes = [[u, d] for u, d in nodes if u not in dead]
@@ -799,6 +841,20 @@ def case_content(g):
 
 def oracle(case, obs, flavour='shared'):
     g, store = source_graph(case, obs, flavour)
+    # a refused load / import (a node without NodeID) under a graph id not in use leaves the whole store as it was:
+    # the refused id does not exist afterwards and every graph loaded so far is what it was
+    if store is not None and flavour == 'shared':
+        for (direct, gid, _), l in zip(case['pre'], obs['loads']):
+            a = obs.get('after_loads', {}).get(gid)
+            if a is None or 'error' in a:
+                continue
+            if l[0] == 'import' and gid not in store:
+                if a['exists'] or a['content'] is not None:
+                    return ('a refused import (node without NodeID) left %d node(s) in the store under the refused graph id %r '
+                            '(graph_exists = %s)' % (len(a['content']['nodes']) if a['content'] else 0, gid, a['exists']))
+            elif gid in store and store[gid]['nodes']:
+                if not a['exists'] or canon_content(a['content']) != canon_content(case_content(store[gid])):
+                    return 'graph %r is not what was loaded, after the loads %s' % (gid, [x[0] for x in obs['loads']])
     if g is None:
         return None
     # a text whose nodes carry more than one graph id cannot be imported "keeping the graph id": the direct entry
@@ -969,6 +1025,9 @@ class RoundTrip(Stream, Run):
                     c = gen_raw_case(rng)
                     c['fmt'], c['ep'] = fmt, ep
                     out.append(c)
+                out.append(gen_refused_case(rng, fmt, ep))     # refused import, then each entry point, both formats
+                out.append(gen_cross_case(rng))
+                out[-1]['fmt'], out[-1]['ep'] = fmt, ep
         for _ in range(n_raw):
             out.append(gen_raw_case(rng))
         return out
